@@ -7,17 +7,18 @@
 // `unknown` constructor, which no table of the model contains (the obligation fails, never skipped).
 //
 // Facts per type:
-//   key / val     parameter types of the put method
-//   addOp         in add/_add, the statement that updates `e.value` of a present key:  `+=` accumulate, `=` assign
-//   growMul/Add   rehash():  newCapacity := oldCapacity*M + A
-//   evictLast/First   inside `if this.max > 0 { switch m { case …: for this.count >= this.max { k := this.header.<end>.key`
-//                 link_next = front, link_prev = back, per case list (PUT_FIRST/PUT_FORCE_FIRST vs PUT_LAST/PUT_FORCE_LAST);
-//                 put and add must agree
-//   capGuard      New<Type>(initCapacity int, loadFactor float32): absent / contains `if initCapacity == 0 { initCapacity = 1 }` / not
-//   cvScan        ContainsValue: the bucket loop `for i := <init>; i <cond> 0; i-- { for e := tab[<index>]; …`
-//   refuseEmpty   put (or unipoint / _add) starts with `if key == "" { return … }`
-//   blindEmpty    Contains / ContainsKey contains `if key == "" { return false }`
-//   addFreshNew   plain add(): the final return statement returns the value parameter instead of this.NONE
+//
+//	key / val     parameter types of the put method
+//	addOp         in add/_add, the statement that updates `e.value` of a present key:  `+=` accumulate, `=` assign
+//	growMul/Add   rehash():  newCapacity := oldCapacity*M + A
+//	evictLast/First   inside `if this.max > 0 { switch m { case …: for this.count >= this.max { k := this.header.<end>.key`
+//	              link_next = front, link_prev = back, per case list (PUT_FIRST/PUT_FORCE_FIRST vs PUT_LAST/PUT_FORCE_LAST);
+//	              put and add must agree
+//	capGuard      New<Type>(initCapacity int, loadFactor float32): absent / contains `if initCapacity == 0 { initCapacity = 1 }` / not
+//	cvScan        ContainsValue: the bucket loop `for i := <init>; i <cond> 0; i-- { for e := tab[<index>]; …`
+//	refuseEmpty   put (or unipoint / _add) starts with `if key == "" { return … }`
+//	blindEmpty    Contains / ContainsKey contains `if key == "" { return false }`
+//	addFreshNew   plain add(): the final return statement returns the value parameter instead of this.NONE
 package main
 
 import (
@@ -39,10 +40,10 @@ var linked = []string{"LinkedMap", "IntKeyLinkedMap", "LongKeyLinkedMap", "Strin
 var plain = []string{"IntIntMap", "IntKeyMap", "IntSet", "StringSet"}
 
 type desc struct {
-	name, key, val, addOp              string
-	growMul, growAdd                   int
-	evictLast, evictFirst              string
-	capGuard, cvScan                   string
+	name, key, val, addOp                string
+	growMul, growAdd                     int
+	evictLast, evictFirst                string
+	capGuard, cvScan                     string
 	refuseEmpty, blindEmpty, addFreshNew bool
 }
 
@@ -366,7 +367,7 @@ func cvScan(fd *ast.FuncDecl) string {
 				}
 			}
 		}
-		full := strings.HasPrefix(init, "len(")      // i := len(tab)
+		full := strings.HasPrefix(init, "len(")                                      // i := len(tab)
 		fullM1 := strings.HasPrefix(init, "(len(") && strings.HasSuffix(init, "-1)") // i := len(tab) - 1
 		switch {
 		case post != "dec" || index == "":
@@ -567,6 +568,12 @@ func irFile(dir string, names []string, ns string) string {
 		emit("removeFirst", pick("RemoveFirst"), false)
 		emit("removeLast", pick("RemoveLast"), false)
 		emit("clear", pick("clear", "Clear"), false)
+		if ms["SetMax"] != nil {
+			sb.WriteString(fmt.Sprintf("/-- %s.SetMax -/\ndef %s_setMax : List CSt :=\n  %s\n\n", n, n, setterIR(ms["SetMax"])))
+		}
+		if ms["SetNullValue"] != nil {
+			sb.WriteString(fmt.Sprintf("/-- %s.SetNullValue -/\ndef %s_setNull : List CSt :=\n  %s\n\n", n, n, setterIR(ms["SetNullValue"])))
+		}
 		if ms["ContainsValue"] != nil {
 			sb.WriteString(fmt.Sprintf("/-- %s.ContainsValue -/\ndef %s_cv : CVFacts :=\n  %s\n\n", n, n, cvFacts(ms["ContainsValue"])))
 		}
